@@ -92,7 +92,10 @@ def replay_loader(case) -> dict:
     if case["mask"]:
         zz, yy, xx = np.indices(box)
         c = (np.array(box) - 1) / 2
-        mask = (((zz - c[0]) ** 2 + (yy - c[1]) ** 2 + (xx - c[2]) ** 2) <= (min(box) / 2) ** 2).astype(np.float32)
+        rr = np.sqrt((zz - c[0]) ** 2 + (yy - c[1]) ** 2 + (xx - c[2]) ** 2)
+        mask = (rr <= min(box) / 2).astype(np.float32)
+        if case["mask"] == "soft":       # a soft edge: values strictly between 0 and 1
+            mask = np.clip((min(box) / 2 + 1.0 - rr) / 2.0, 0.0, 1.0).astype(np.float32)
     desc = dict(kind="loader", n=n, box=list(box), mask=case["mask"], n_set=case["n_set"], seed=case["seed"], zero_norm=case["zero_norm"])
     fails = []
     dfq = case["dfreq"]
@@ -184,7 +187,7 @@ def run(rep: engine.Report, tier: str, seed: int):
     i = 0
     for n in (4, 7):
         for box in ((8, 8, 8), (7, 8, 9), (5, 5, 5)):
-            for mask in (False, True):
+            for mask in (False, True, "soft"):
                 for n_set in (1, 2):
                     for zn in (True, False):
                         i += 1
